@@ -128,7 +128,7 @@ _push('C13', 'Lean 4 proof (reject text = header + failed hunks parses back to e
       ' Known limitation (documented): two failing file patches for one file overwrite each other\'s reject (dup-entry-rej-overwrite) - mirrored by the specification, see DESIGN.md.')
 
 _push('C05', 'Lean 4 proof (forward simulation: memory cache + LIFO rollback refine the abstract patch-by-patch application; the save phase writes out exactly the cache: saveAll_flush; uses C04, C11, C16_no_alias) + differential correspondence against pushSpec',
-      'Theorem C05_apply_refines (application loop = abstract patch-by-patch application) C05_oracle_agrees / C05_disk_is_pushSpec (under prefix-free names and terminated lines — the two known-finding classes, each shown necessary by a decided counterexample — the executable oracle pushSpec that is evaluated on the implementation's output holds exactly the files the abstract specification and the driver model's disk hold) and C05_tree_on_disk (whenever the model of the driver finishes without an I/O error, the file found on disk under every non-reject, non-.pc name is exactly the file the abstract specification has under that name after the first k patches, k = the number recorded) for all file systems, configurations and ranges; C05_exit_and_names. Real pushes (multi-file patches, creates, '
+      'Theorem C05_apply_refines (application loop = abstract patch-by-patch application) C05_oracle_agrees / C05_disk_is_pushSpec (under prefix-free names and terminated lines — the two known-finding classes, each shown necessary by a decided counterexample — the executable oracle pushSpec that is evaluated on the output of the implementation holds exactly the files the abstract specification and the disk of the driver model hold) and C05_tree_on_disk (whenever the model of the driver finishes without an I/O error, the file found on disk under every non-reject, non-.pc name is exactly the file the abstract specification has under that name after the first k patches, k = the number recorded) for all file systems, configurations and ranges; C05_exit_and_names. Real pushes (multi-file patches, creates, '
       'deletes, renames, mode changes, failure at any position and in any subset of files, all backup modes) must leave exactly pushSpec\'s tree, '
       'rejects, .pc and exit status.')
 
